@@ -38,7 +38,7 @@ fn gen_pattern(rng: &mut Rng, fam: u64) -> (Vec<Peak>, f64) {
             let base = 100.0 + rng.unit() * 3000.0;
             let mut v = Vec::new();
             for i in 0..n {
-                let inten = (rng.unit() + 1e-6) * (10f64).powi(rng.range(-6, 3) as i32);
+                let inten = (rng.unit() + 1e-6) * (10f64).powi(rng.range(-6, 8) as i32);
                 v.push(Peak { mz: base + i as f64 * 1.0033548378, intensity: inten });
             }
             if fam == 5 {
@@ -160,6 +160,12 @@ pub fn run(args: &[String]) {
                 guarded(|| Value::Array(t.clone().incremental_truncation(th).map(|x| tipv(&x)).collect())).unwrap_or(json!("panic"))
             }
             "eq" => {
+                // one time in three the whole pattern is scaled up by 2^20 (exact), so that the 1e-3 tolerance is far
+                // below single-precision resolution of the intensities
+                let scale = if rng.chance(1, 3) { 1048576.0 } else { 1.0 };
+                let pat: Vec<Peak> = pat.iter().map(|p| Peak { mz: p.mz, intensity: p.intensity * scale }).collect();
+                let t = TheoreticalIsotopicPattern::new(pat.clone(), origin);
+                rec["pat"] = json!(pat.iter().map(pk).collect::<Vec<_>>());
                 // b: same, prefix, perturbed within / beyond tolerance, empty, other pattern
                 let mut b = pat.clone();
                 let how = rng.below(7);
